@@ -28,8 +28,20 @@ RULE = ("forecasts on the grid k/8 in [0,1] and thresholds drawn from the same g
         "dims of size 1-3 in shuffled order, observations in {0,1} on a random subset of the dims, NaN injected with p=0.15 in fcst / obs / weights, "
         "non-negative weights on sub-dims, every reduce/preserve spelling, check_args on and off, malformed stream (forecast or threshold outside "
         "[0,1], unsorted / NaN thresholds, non-binary obs, weights-only dimension, 'threshold' data dimension); a case is distinct by the hash of its "
-        "inputs and non-trivial when at least one POD or POFD value is finite")
+        "inputs and non-trivial when at least one POD or POFD value is finite; round 4: weights multiplied by a positive constant from "
+        "2^-40 ... 2^40 or 1e-12 ... 1e8 in half of the weighted cases (so weighted totals <= 1e-8 occur in ~6% of all cases) plus a second call "
+        "with another such factor for every weighted case, constant weights of any magnitude in 40% of the Mann-Whitney cases, observations "
+        "stored as bool / uint8 / uint16 / int8-64 / float32 in 20% of the NaN-free cases")
 ASSUMPTIONS = ["the rank statistic (Mann-Whitney) used as oracle is computed by the harness with exact fractions, independently of model and implementation"]
+
+
+# counters every complete run must have incremented (one per predicate family / input class): core.run_check reports the missing ones
+EXPECT_COUNTS = ["ok", "err:ValueError:malformed=", "fcst_dtype:float32", "fcst_dtype:int64", "obs_only_dim", "has_fcst_eq_threshold_tie", "cells_checked",
+                 "manager_agreement_checked", "weights:scaled", "weights:tiny_total", "weights:mixed_kept_and_reduced_dims", "weight_scale_invariance_checked",
+                 "obs_storage:", "mann_whitney:defined", "mann_whitney:empty_class", "mann_whitney:near_ties", "mann_whitney:constant_weights"]
+# positive constant factors of the weights: powers of two (exact in binary64) from 2^-40 to 2^40, and decimal ones
+WEIGHT_SCALES = [2.0 ** k for k in (-40, -36, -33, -30, -27, -20, -10, -1, 1, 10, 20, 30, 40)] + [1e-10, 1e-12, 1e-9, 3e-9, 1e-6, 1e8, 7.0]
+OBS_DTYPES = ["bool", "uint8", "uint8", "uint16", "int8", "int32", "int64", "float32"]
 
 
 def model_ok(ctx):
@@ -117,6 +129,15 @@ def gen_case(ctx):
             wsizes["z"] = 2
             wd = wd + ["z"]
         w = gens.rand_da(rng, wsizes, dims=wd, lo=0, hi=3, nan_p=0.1 if rng.random() < 0.3 else 0.0)
+        # POD / POFD / AUC are ratios: the magnitude of the weights is the user's business (cell share of a huge domain, weights normalised over
+        # a big grid, any positive constant factor 2^-40 ... 2^40): a weighted total far below 1e-8 is not 'no cases'
+        if rng.random() < 0.5:
+            w = w * rng.choice(WEIGHT_SCALES)
+            ctx.count("weights:scaled")
+    # binary observations stored compactly (bool / unsigned 8-bit masks / integers): nothing but comparisons with 0 and 1 is needed
+    if bad is None and rng.random() < 0.2 and not bool(np.isnan(obs.values).any()):
+        obs = obs.astype(rng.choice(OBS_DTYPES))
+        ctx.count("obs_storage:" + str(obs.dtype))
     ts = rand_thresholds(rng, bad)
     if near and bad is None:
         ts = sorted(set(ts) | set(rng.sample([0.3, 0.5, 0.25, 0.75, 0.375, 0.5 + 1e-9, 0.3 - 1e-10], 3)))
@@ -211,6 +232,27 @@ def predicates(ctx, fcst, obs, ts, w, ds, desc, use_model=True, rd=None, pd=None
         ctx.count("cells_checked")
 
 
+def scale_invariance(ctx, fcst, obs, ts, rd, pd, w, ca, ds, desc):
+    """multiplying all weights by a positive constant changes nothing: bitwise for a power of two (every product and sum scales exactly),
+    up to rounding for any other factor"""
+    c = ctx.rng.choice(WEIGHT_SCALES)
+    st, ds2 = call(fcst, obs, ts, rd, pd, w * c, ca)
+    exact = math.frexp(c)[0] == 0.5
+    if st != "ok":
+        ctx.violation(f"roc_curve_data raises when all weights are multiplied by the positive constant {c!r}", desc, "dataset", ds2)
+        return
+    for name in ("POD", "POFD", "AUC"):
+        a, b = ds[name], ds2[name]
+        good = set(a.dims) == set(b.dims)
+        if good:
+            x, y = np.asarray(a.values, float), np.asarray(b.transpose(*a.dims).values, float)
+            good = bool(np.array_equal(x, y, equal_nan=True)) if exact else bool(np.allclose(x, y, rtol=1e-11, atol=1e-13, equal_nan=True))
+        if not good:
+            ctx.violation(f"{name} changes when all weights are multiplied by the positive constant {c!r}", dict(desc, factor=c),
+                          np.asarray(a.values, float).tolist(), np.asarray(b.values, float).tolist())
+    ctx.count("weight_scale_invariance_checked")
+
+
 def manager_agreement(ctx, fcst, obs, ts, rd, pd, ds, desc):
     """POD / POFD equal those of the contingency manager for the binary forecast `fcst >= t` (unweighted)"""
     from scores.categorical import BinaryContingencyManager
@@ -264,12 +306,17 @@ def mann_whitney_case(ctx, use_model=True):
         ts = sorted(set(ts) | {Fraction(rng.randint(0, 16), 16) for _ in range(3)})
     fcst = xr.DataArray(fa, dims="x")
     obs = xr.DataArray(oa, dims="x")
-    st, ds = call(fcst, obs, [float(t) for t in ts], None, None, None, top <= 1)
+    w = None
+    if rng.random() < 0.4:      # constant weights of any magnitude: the same statistic as without weights
+        w = xr.DataArray(np.full(n, rng.choice(WEIGHT_SCALES + [1.0, 0.25])), dims="x")
+        ctx.count("mann_whitney:constant_weights")
+    st, ds = call(fcst, obs, [float(t) for t in ts], None, None, w, top <= 1)
     valid = [(x, y) for x, y, xa, ya in zip(f, o, fa, oa) if not (np.isnan(xa) or np.isnan(ya))]
     ev = [x for x, y in valid if y == 1]
     ne = [x for x, y in valid if y == 0]
     u = mann_whitney(ev, ne)
-    desc = {"fn": "roc_curve_data", "fcst": fa.tolist(), "obs": oa.tolist(), "thresholds": [float(t) for t in ts]}
+    desc = {"fn": "roc_curve_data", "fcst": fa.tolist(), "obs": oa.tolist(), "thresholds": [float(t) for t in ts],
+            "weights": None if w is None else "constant %r" % float(w.values[0])}
     ctx.case(desc, u is not None)
     ctx.count("mann_whitney:" + ("defined" if u is not None else "empty_class"))
     if st != "ok":
@@ -295,7 +342,7 @@ def body(ctx, use_model):
             break
         fcst, obs, ts, rd, pd, w, ca, bad = gen_case(ctx)
         impl = call(fcst, obs, ts, rd, pd, w, ca)
-        desc = {"fn": "roc_curve_data", "fcst": gens.da_repr(fcst), "fcst_dtype": str(fcst.dtype), "obs": gens.da_repr(obs), "thresholds": ts,
+        desc = {"fn": "roc_curve_data", "fcst": gens.da_repr(fcst), "fcst_dtype": str(fcst.dtype), "obs": gens.da_repr(obs), "obs_dtype": str(obs.dtype), "thresholds": ts,
                 "reduce_dims": rd, "preserve_dims": pd, "weights": gens.da_repr(w), "check_args": ca}
         nontrivial = impl[0] == "ok" and bool(np.isfinite(np.asarray(impl[1]["POD"])).any() or np.isfinite(np.asarray(impl[1]["POFD"])).any())
         ctx.case(desc, nontrivial)
@@ -322,6 +369,14 @@ def body(ctx, use_model):
             ties = int(np.isin(np.asarray(fcst.values, float), ts).sum())
             ctx.count("has_fcst_eq_threshold_tie" if ties else "no_tie")
             predicates(ctx, fcst, obs, ts, w, impl[1], desc, use_model, rd, pd, valid_request)
+            if w is not None:
+                wv = np.asarray(w.values, float)
+                if bool((np.nan_to_num(wv) > 0).any()) and float(np.nansum(wv)) <= 1e-8:
+                    ctx.count("weights:tiny_total")
+                kept = set(impl[1]["AUC"].dims)
+                if set(w.dims) & kept and set(w.dims) - kept:
+                    ctx.count("weights:mixed_kept_and_reduced_dims")
+                scale_invariance(ctx, fcst, obs, ts, rd, pd, w, ca, impl[1], desc)
             if w is None and bad is None:
                 manager_agreement(ctx, fcst, obs, ts, rd, pd, impl[1], desc)
     for _ in range(ctx.n(150, 2000)):
